@@ -54,14 +54,26 @@ Inductive send_outcome :=
 | SoWriteConnErr (status : Z)        (* write: ECONNREFUSED / EBADFAMILY -> handle_conn_error + requeue *)
 | SoWriteOther (status : Z).         (* write: anything else -> requeue *)
 
-Inductive reply_kind :=
-| RkDrop                             (* unparsable, other question, bad cookie data: dropped *)
-| RkAnswer                           (* accepted as the final answer *)
-| RkErr (status : Z)                 (* SERVFAIL / NOTIMP / REFUSED *)
-| RkTC                               (* TC bit set *)
-| RkEdns                             (* FORMERR and the reply has no OPT RR *)
-| RkFormerrOpt                       (* FORMERR and the reply has an OPT RR *)
-| RkBadCookie.                       (* rcode BADCOOKIE with a well-formed matching cookie *)
+(* what process_answer / ares_cookie_validate look at in a reply that matched the query's id *)
+Record reply := Reply {
+  r_drop : bool;        (* dropped before it touches the query: other question (incl. 0x20 case),
+                           cookie of invalid length or not echoing the client cookie, BADCOOKIE
+                           without any cookie, "expected a cookie" *)
+  r_cookie_bad : bool;  (* rcode BADCOOKIE with a well-formed cookie *)
+  r_formerr : bool;     (* rcode FORMERR *)
+  r_has_opt : bool;     (* the reply has an OPT RR *)
+  r_tc : bool;          (* TC bit *)
+  r_err : option Z      (* Some status for rcode SERVFAIL / NOTIMP / REFUSED *)
+}.
+Definition reply_kind := reply.
+(* the pure kinds *)
+Definition RkDrop : reply := Reply true false false false false None.
+Definition RkAnswer : reply := Reply false false false true false None.
+Definition RkErr (status : Z) : reply := Reply false false false true false (Some status).
+Definition RkTC : reply := Reply false false false true true None.
+Definition RkEdns : reply := Reply false false true false false None.        (* FORMERR, no OPT in the reply *)
+Definition RkFormerrOpt : reply := Reply false false true true false None.   (* FORMERR, OPT in the reply *)
+Definition RkBadCookie : reply := Reply false true false true false None.
 
 Inductive input :=
 | ISend (servers : Z) (o : send_outcome)
@@ -125,48 +137,35 @@ Definition do_send (cfg : config) (servers : Z) (q : qstate) (o : send_outcome) 
   | SoWriteOther st => requeue_query cfg servers q st true false
   end.
 
-(* process_answer for a reply that matched the query's id and question *)
-Definition do_reply (cfg : config) (servers : Z) (q : qstate) (on_tcp : bool) (k : reply_kind)
+(* process_answer for a reply that matched the query's id; the checks in the order of the code:
+   ares_cookie_validate, issue_might_be_edns, TC, error rcodes *)
+Definition do_reply (cfg : config) (servers : Z) (q : qstate) (on_tcp : bool) (r : reply)
   : qstate * list output :=
-  match k with
-  | RkDrop => (q, [])
-  | _ =>
-    (* ares_cookie_validate: BADCOOKIE is only acted upon when the request carried a cookie *)
-    if (match k with RkBadCookie => true | _ => false end) && q_req_cookie q then
-      let c := (q_cookie_try_count q + 1) mod 2 ^ 64 in
-      let q1 := QState (q_try_count q) c (if c >=? COOKIE_RESEND_MAX then true else q_using_tcp q)
-                       (q_has_opt q) (q_req_cookie q) (q_no_retries q) (q_error_status q)
-                       (q_conn q) (q_queued q) (q_sending q) (q_ended q) in
-      requeue_query cfg servers q1 ARES_SUCCESS false true
-    else
-    match k with
-    | RkEdns =>
-        if q_has_opt q then
-          (* rewrite_without_edns, requeue to the same server; no budget check *)
-          append_requeue (QState (q_try_count q) (q_cookie_try_count q) (q_using_tcp q) false false
-                                 (q_no_retries q) (q_error_status q) (q_conn q) (q_queued q)
-                                 (q_sending q) (q_ended q))
-        else end_query q ARES_SUCCESS
-    | RkFormerrOpt =>
-        (* issue_might_be_edns: blamed on EDNS only when the request carried option codes
-           (the only option the library adds itself is the cookie) *)
-        if q_has_opt q && q_req_cookie q then
-          append_requeue (QState (q_try_count q) (q_cookie_try_count q) (q_using_tcp q) false false
-                                 (q_no_retries q) (q_error_status q) (q_conn q) (q_queued q)
-                                 (q_sending q) (q_ended q))
-        else end_query q ARES_SUCCESS
-    | RkTC =>
-        if negb on_tcp && negb (cfg_igntc cfg) then
-          append_requeue (QState (q_try_count q) (q_cookie_try_count q) true (q_has_opt q) (q_req_cookie q)
-                                 (q_no_retries q) (q_error_status q) (q_conn q) (q_queued q)
-                                 (q_sending q) (q_ended q))
-        else end_query q ARES_SUCCESS
-    | RkErr st =>
-        if negb (cfg_nocheckresp cfg) then requeue_query cfg servers q st true true
-        else end_query q ARES_SUCCESS
-    | _ => end_query q ARES_SUCCESS
-    end
-  end.
+  if r_drop r then (q, [])
+  else if r_cookie_bad r && q_req_cookie q then
+    (* BADCOOKIE is only acted upon when the request carried a cookie *)
+    let c := (q_cookie_try_count q + 1) mod 2 ^ 64 in
+    let q1 := QState (q_try_count q) c (if c >=? COOKIE_RESEND_MAX then true else q_using_tcp q)
+                     (q_has_opt q) (q_req_cookie q) (q_no_retries q) (q_error_status q)
+                     (q_conn q) (q_queued q) (q_sending q) (q_ended q) in
+    requeue_query cfg servers q1 ARES_SUCCESS false true
+  else if r_formerr r && q_has_opt q && (negb (r_has_opt r) || q_req_cookie q) then
+    (* issue_might_be_edns: we sent EDNS and either the reply has no OPT, or it has one and the
+       request carried option codes (the only option the library adds itself is the cookie);
+       rewrite_without_edns, requeue to the same server; no budget check *)
+    append_requeue (QState (q_try_count q) (q_cookie_try_count q) (q_using_tcp q) false false
+                           (q_no_retries q) (q_error_status q) (q_conn q) (q_queued q)
+                           (q_sending q) (q_ended q))
+  else if r_tc r && negb on_tcp && negb (cfg_igntc cfg) then
+    append_requeue (QState (q_try_count q) (q_cookie_try_count q) true (q_has_opt q) (q_req_cookie q)
+                           (q_no_retries q) (q_error_status q) (q_conn q) (q_queued q)
+                           (q_sending q) (q_ended q))
+  else
+    match r_err r with
+    | Some st => if negb (cfg_nocheckresp cfg) then requeue_query cfg servers q st true true
+                 else end_query q ARES_SUCCESS
+    | None => end_query q ARES_SUCCESS
+    end.
 
 (* one event; the boolean tells whether the event was possible in this state at all
    (false = the implementation cannot produce this event here: the acceptor rejects) *)
